@@ -365,3 +365,115 @@ func TestVerifC09(t *testing.T) {
 		}
 	})
 }
+
+// TestVerifC09Light: under acknowledged light maintenance repairs and planned switchovers go on.
+func TestVerifC09Light(t *testing.T) {
+	stt := vs.NewStats(t, "C09")
+	stt.Rule = "semi-sync cluster of 3 HA hosts, light maintenance acknowledged, no faults; a drawn sequence of 1-4 operator actions from {planned switch --to a replica, planned switch --from the master, a replica's replication threads stopped by hand, a replica made writable by hand, client write}, each followed by up to 25 fault-free rounds; oracle (bounded progress in a fault-free history): a planned switchover on the healthy cluster completes (the recorded master moves as asked, the request disappears), stopped threads run again, the writable replica is read-only again; throughout no failover request appears; non-trivial = at least one switchover or repair was asked for"
+	stt.Assumptions = simAssumptions
+	stt.Check(t, vs.CheckOpts{Bubble: true}, func(c *vs.Case) {
+		ha := []string{"h1", "h2", "h3"}
+		o := simOpts{HA: ha, LogLevel: simLogLevel(), Cfg: map[string]string{"failover_cooldown": "0s", "resetup_crashed_hosts": "false"}}
+		dir, _ := os.MkdirTemp("", "verifsim")
+		defer os.RemoveAll(dir)
+		s := newSim(c, c.RTOrT(t), dir, o)
+		defer s.close()
+		if !s.converge(40) {
+			c.Violation("harness-no-convergence", "calibration: no convergence from a cold start")
+		}
+		s.traceFrom = s.w.StmtLen()
+		s.opMaintenance(LightMode)
+		for i := 0; i < 10; i++ {
+			s.round(true)
+			if m := s.currentMaint(); m != nil && m.MySyncPaused {
+				break
+			}
+		}
+		if m := s.currentMaint(); m == nil || !m.MySyncPaused {
+			c.Violation("c09-light-maintenance-not-acknowledged", "light maintenance was not acknowledged within 10 fault-free rounds: %+v", m)
+		}
+		mut0 := s.zk.MutLen()
+		n := c.Src.Int("actions", 1, 4)
+		asked := false
+		for i := 0; i < n; i++ {
+			// every request is made on a healthy, converged cluster (the premise of the clause)
+			for k := 0; k < 25 && !s.converged(); k++ {
+				s.round(true)
+			}
+			if !s.converged() {
+				c.Class("not-converged-before-an-action")
+				break
+			}
+			master := s.masterKey()
+			var reps []string
+			for _, h := range ha {
+				if h != master {
+					reps = append(reps, h)
+				}
+			}
+			r := reps[c.Src.Int("replica", 0, len(reps)-1)]
+			act := c.Src.Pick("action", "switch-to", "switch-from", "stop-threads", "writable-replica", "write")
+			c.Class("action:" + act)
+			done := func() bool { return true }
+			switch act {
+			case "switch-to":
+				s.opSwitch("", r, false, "operator")
+				done = func() bool { return s.masterKey() == r && s.currentSwitch() == nil }
+				asked = true
+			case "switch-from":
+				s.opSwitch(master, "", false, "operator")
+				done = func() bool { return s.masterKey() != master && s.currentSwitch() == nil }
+				asked = true
+			case "stop-threads":
+				s.w.Lock()
+				if ch := s.w.Hosts[r].Chan; ch != nil {
+					ch.IODesired, ch.SQLDesired = false, false
+				}
+				s.w.Unlock()
+				done = func() bool {
+					s.w.Lock()
+					defer s.w.Unlock()
+					ch := s.w.Hosts[r].Chan
+					return ch != nil && ch.IODesired && ch.SQLDesired
+				}
+				asked = true
+			case "writable-replica":
+				s.w.Lock()
+				s.w.Hosts[r].RO, s.w.Hosts[r].SRO = false, false
+				s.w.Unlock()
+				done = func() bool {
+					s.w.Lock()
+					defer s.w.Unlock()
+					return s.w.Hosts[r].RO
+				}
+				asked = true
+			case "write":
+				s.w.ClientWrite(master, 200)
+			}
+			ok := false
+			for k := 0; k < 25 && !ok; k++ {
+				s.round(true)
+				s.raise()
+				ok = done()
+			}
+			if !ok {
+				s.dumpTrace(s.traceFrom)
+				c.Violation("c09-light-maintenance-blocks@"+act, "acknowledged light maintenance, fault-free: %q (replica %s, master %s) was not carried out within 25 rounds; request now %+v\n%s", act, r, master, s.currentSwitch(), s.describe())
+			}
+		}
+		for _, m := range s.zk.MutSnapshot()[mut0:] {
+			if m.Client != "raw" && m.Path == simNS+"/"+pathCurrentSwitch && m.Op == vs.OpCreate && strings.Contains(string(m.Data), `"`+string(FailoverTransition)+`"`) {
+				c.Violation("c09-failover-filed-during-light-maintenance", "light maintenance is acknowledged, yet %s files a failover request: %s", m.Client, m.Data)
+			}
+		}
+		if m := s.currentMaint(); m == nil || !m.IsLightMode() {
+			c.Violation("c09-light-maintenance-vanished", "the light maintenance request disappeared without being asked to: %+v", m)
+		}
+		if len(s.panics) > 0 {
+			c.Class("panic-in-daemon(C20)")
+		}
+		if asked {
+			c.NonTrivial()
+		}
+	})
+}
